@@ -32,6 +32,7 @@ class SimKNXDevice:
         self.base_script = dict(self.script)
         self.script_seq: list[dict[str, Any]] = list(self.script.get("per_request") or [])   # overrides per request ordinal
         self.req_ordinal = -1
+        self._acked_once: set[tuple[int, int, int]] = set()
         self.last_data: dict[int, tuple[int, bytes]] = {}     # per peer: (number, apdu) of the data frame sent last
         self.conn: dict[int, dict[str, int]] = {}
         self.log: list[tuple[float, str, Any]] = []
@@ -97,6 +98,12 @@ class SimKNXDevice:
         b = self.script.get("ack", "normal")
         if b == "none":
             return
+        if b == "lost_once":
+            # the acknowledgement of the first transmission of each data frame is lost, the one of its repetition arrives
+            key_ = (dst, seq, self.req_ordinal)
+            if key_ not in self._acked_once:
+                self._acked_once.add(key_)
+                return
         n = seq if b != "wrong" else (seq + 5) & 0xF
         lat = self.script.get("ack_lat")
         self.bus.emit(self, dst, bytes((0xC2 | (n << 2),)), lat=lat)
